@@ -60,7 +60,7 @@ def r18_1(ctx):
                     if not loops:
                         missing = "no loop over self.%s" % name
                     continue
-                if not any(re.search(r"\bself\.%s\b" % re.escape(name), t) for t in traced):
+                if not any(re.search(r"\bself\.%s\b" % re.escape(name), t) for t in traced) and not hit:
                     missing = "path %s does not trace self.%s" % ({g: v for g, v in list(pc["guards"].items())[:4]}, name)
             # the only guards that mention other state must not decide whether this field is traced
             for pc in pcs:
